@@ -515,7 +515,15 @@ class Parser(IdlVisitor):
             parser.removeErrorListeners()
             parser.addErrorListener(Parser.ParsingErrorListener(self.idl, self.errors))
             tree = parser.idl()
-            ast = self.visit(tree)
+            try:
+                ast = self.visit(tree)
+            except ApplicationException:
+                raise
+            except Exception:
+                # After a syntax error the parse tree is incomplete (missing tokens and rule contexts).
+                # The recorded syntax errors are the diagnosis; a visitor failure must not mask them.
+                if not self.errors:
+                    raise
             for decl in self.type_decls + self.field_decls:
                 if decl.comment:
                     ParserCommentProcessor(decl).render_tokens(*decl.parsed_comment)
